@@ -1,0 +1,183 @@
+//! Verification hooks. Only compiled with `--cfg lace_verif`.
+//!
+//! Nothing in here is used by a normal build. With the guard on, and only while a thread has
+//! *armed* the hooks, process exits become typed unwinds, console output is collected into
+//! thread-local buffers, console input is taken from an injected byte queue, and the VM run loop
+//! reports its iterations and instruction fetches (so that a caller can bound them).
+
+use std::cell::{Cell, RefCell};
+use std::collections::VecDeque;
+use std::fmt::{self, Write as _};
+
+/// Panic payload standing for `std::process::exit(code)`.
+#[derive(Debug, Clone, Copy)]
+pub struct VerifExit(pub i32);
+
+/// Panic payload: the budget given to [`arm`] is used up.
+#[derive(Debug, Clone, Copy)]
+pub struct VerifFuel;
+
+thread_local! {
+    static ARMED: Cell<bool> = const { Cell::new(false) };
+    static OUT: RefCell<String> = const { RefCell::new(String::new()) };
+    static ERR: RefCell<String> = const { RefCell::new(String::new()) };
+    static INPUT: RefCell<VecDeque<u8>> = const { RefCell::new(VecDeque::new()) };
+    static CONSUMED: Cell<u64> = const { Cell::new(0) };
+    /// Iterations of `RunEnvironment::run`.
+    static TICKS: Cell<u64> = const { Cell::new(0) };
+    static TICK_LIMIT: Cell<u64> = const { Cell::new(u64::MAX) };
+    /// Instruction fetches of `RunEnvironment::run`.
+    static FETCHES: Cell<u64> = const { Cell::new(0) };
+    static FETCH_LIMIT: Cell<u64> = const { Cell::new(u64::MAX) };
+    static TRACE: RefCell<Option<Vec<(u16, u16)>>> = const { RefCell::new(None) };
+    /// Commands handed to the debugger.
+    static COMMANDS: Cell<u64> = const { Cell::new(0) };
+}
+
+/// Arm the hooks on this thread and clear every buffer and counter.
+pub fn arm(input: &[u8], fetch_limit: u64, tick_limit: u64, trace: bool) {
+    ARMED.with(|a| a.set(true));
+    OUT.with(|b| b.borrow_mut().clear());
+    ERR.with(|b| b.borrow_mut().clear());
+    INPUT.with(|q| {
+        let mut q = q.borrow_mut();
+        q.clear();
+        q.extend(input.iter().copied());
+    });
+    CONSUMED.with(|c| c.set(0));
+    TICKS.with(|c| c.set(0));
+    FETCHES.with(|c| c.set(0));
+    COMMANDS.with(|c| c.set(0));
+    TICK_LIMIT.with(|c| c.set(tick_limit));
+    FETCH_LIMIT.with(|c| c.set(fetch_limit));
+    TRACE.with(|t| *t.borrow_mut() = if trace { Some(Vec::new()) } else { None });
+}
+
+pub fn disarm() {
+    ARMED.with(|a| a.set(false));
+}
+
+pub fn armed() -> bool {
+    ARMED.with(|a| a.get())
+}
+
+/// Called immediately before every `std::process::exit`.
+pub fn exit_hook(code: i32) {
+    if armed() {
+        std::panic::panic_any(VerifExit(code));
+    }
+}
+
+/// Called at the top of every iteration of the run loop.
+pub fn tick() {
+    if !armed() {
+        return;
+    }
+    let n = TICKS.with(|c| c.get());
+    if n >= TICK_LIMIT.with(|c| c.get()) {
+        std::panic::panic_any(VerifFuel);
+    }
+    TICKS.with(|c| c.set(n + 1));
+}
+
+/// Called when the run loop is about to fetch the instruction at `pc`.
+pub fn fetch(pc: u16, instr: u16) {
+    if !armed() {
+        return;
+    }
+    let n = FETCHES.with(|c| c.get());
+    if n >= FETCH_LIMIT.with(|c| c.get()) {
+        std::panic::panic_any(VerifFuel);
+    }
+    FETCHES.with(|c| c.set(n + 1));
+    TRACE.with(|t| {
+        if let Some(t) = t.borrow_mut().as_mut() {
+            t.push((pc, instr));
+        }
+    });
+}
+
+/// Called when the debugger has obtained a command line (or end of input).
+pub fn command_read() {
+    if armed() {
+        COMMANDS.with(|c| c.set(c.get() + 1));
+    }
+}
+
+pub fn ticks() -> u64 {
+    TICKS.with(|c| c.get())
+}
+pub fn fetches() -> u64 {
+    FETCHES.with(|c| c.get())
+}
+pub fn commands() -> u64 {
+    COMMANDS.with(|c| c.get())
+}
+pub fn consumed() -> u64 {
+    CONSUMED.with(|c| c.get())
+}
+pub fn take_trace() -> Vec<(u16, u16)> {
+    TRACE.with(|t| t.borrow_mut().take().unwrap_or_default())
+}
+
+/// `Some(Some(b))`: next injected byte; `Some(None)`: injected input is exhausted (end of file);
+/// `None`: hooks not armed, use the real stdin.
+pub fn input_byte() -> Option<Option<u8>> {
+    if !armed() {
+        return None;
+    }
+    let byte = INPUT.with(|q| q.borrow_mut().pop_front());
+    if byte.is_some() {
+        CONSUMED.with(|c| c.set(c.get() + 1));
+    }
+    Some(byte)
+}
+
+pub fn out(args: fmt::Arguments) {
+    if armed() {
+        OUT.with(|b| b.borrow_mut().write_fmt(args).unwrap());
+    } else {
+        use std::io::Write as _;
+        std::io::stdout().write_fmt(args).unwrap();
+    }
+}
+
+pub fn err(args: fmt::Arguments) {
+    if armed() {
+        ERR.with(|b| b.borrow_mut().write_fmt(args).unwrap());
+    } else {
+        use std::io::Write as _;
+        std::io::stderr().write_fmt(args).unwrap();
+    }
+}
+
+pub fn take_out() -> String {
+    OUT.with(|b| std::mem::take(&mut *b.borrow_mut()))
+}
+pub fn take_err() -> String {
+    ERR.with(|b| std::mem::take(&mut *b.borrow_mut()))
+}
+
+/// Replacements for the std printing macros, imported by the modules that print.
+#[macro_export]
+#[doc(hidden)]
+macro_rules! verif_print {
+    ($($tt:tt)*) => { $crate::verif::out(format_args!($($tt)*)) };
+}
+#[macro_export]
+#[doc(hidden)]
+macro_rules! verif_println {
+    () => { $crate::verif::out(format_args!("\n")) };
+    ($fmt:expr $(, $($tt:tt)*)?) => { $crate::verif::out(format_args!(concat!($fmt, "\n") $(, $($tt)*)?)) };
+}
+#[macro_export]
+#[doc(hidden)]
+macro_rules! verif_eprint {
+    ($($tt:tt)*) => { $crate::verif::err(format_args!($($tt)*)) };
+}
+#[macro_export]
+#[doc(hidden)]
+macro_rules! verif_eprintln {
+    () => { $crate::verif::err(format_args!("\n")) };
+    ($fmt:expr $(, $($tt:tt)*)?) => { $crate::verif::err(format_args!(concat!($fmt, "\n") $(, $($tt)*)?)) };
+}
